@@ -14,7 +14,6 @@ import (
 	"slices"
 	"strconv"
 	"strings"
-	"time"
 
 	"golang.org/x/term"
 
@@ -1028,7 +1027,7 @@ func (r *Runner) builtin(ctx context.Context, pos syntax.Pos, name string, args 
 		vr.Kind = expand.Indexed
 		scanner := bufio.NewScanner(r.stdin)
 		scanner.Split(mapfileSplit(delim[0], dropDelim))
-		stopRead := r.unblockStdinOnCancel(ctx)
+		stopRead := unblockReadsOnCancel(ctx, r.stdin)
 		for scanner.Scan() {
 			vr.List = append(vr.List, scanner.Text())
 		}
@@ -1077,25 +1076,6 @@ func (r *Runner) printOptLine(name string, enabled, supported bool) {
 	r.outf("%s\t%s\t(%q not supported)\n", name, state, r.optStatusText(!enabled))
 }
 
-// unblockStdinOnCancel makes reads from the standard input fail as soon as ctx
-// is cancelled, until the returned function is called.
-func (r *Runner) unblockStdinOnCancel(ctx context.Context) (done func()) {
-	stdin := r.stdin
-	stopc := make(chan struct{})
-	stop := context.AfterFunc(ctx, func() {
-		stdin.SetReadDeadline(time.Now())
-		close(stopc)
-	})
-	return func() {
-		if !stop() {
-			// The AfterFunc was started.
-			// Wait for it to complete, and reset the file's deadline.
-			<-stopc
-			stdin.SetReadDeadline(time.Time{})
-		}
-	}
-}
-
 func (r *Runner) readLine(ctx context.Context, raw bool) ([]byte, error) {
 	if r.stdin == nil {
 		return nil, errors.New("interp: can't read, there's no stdin")
@@ -1104,7 +1084,7 @@ func (r *Runner) readLine(ctx context.Context, raw bool) ([]byte, error) {
 	var line []byte
 	esc := false
 
-	defer r.unblockStdinOnCancel(ctx)()
+	defer unblockReadsOnCancel(ctx, r.stdin)()
 	for {
 		var buf [1]byte
 		n, err := r.stdin.Read(buf[:])
